@@ -14,7 +14,8 @@ FUNCS = [
 RULE = ("(sched) real Prefetcher / ParallelMapper(thread, in_order true/false) under the deterministic scheduler, seven schedule biases, one to three epochs with "
         "reset / reset(loaded state): outcomes equal the list reference (in order, or as a multiset per epoch for in_order=False) and every scheduler step is replayed "
         "on ConcModel.v; (seq) random well-typed pipelines over the full operator grammar, three consecutive epochs of the bare root node compared item by item with the "
-        "model and with an independent Python list reference; (conc) ParallelMapper/Prefetcher with thread and process workers, in_order true/false, "
+        "model and with an independent Python list reference; (seq_ab) the same pipelines under a Loader with one or two epochs abandoned part-way (inside a batch / "
+        "prebatch, items in flight) and re-iterated without a state, op by op against the Loader model, every later epoch complete; (conc) ParallelMapper/Prefetcher with thread and process workers, in_order true/false, "
         "max_concurrent, prebatch, and per-item random delays in the map function so that results overtake each other; non-trivial = epoch length >= 2 and "
         "depth >= 2; distinct = distinct (pipeline, parameters, delay seed)")
 SHARD = 60
@@ -43,6 +44,12 @@ def gen_cases(rng, tier, drift):
         cases.append(c)
     for _ in range(n_seq):
         cases.append(dict(kind="seq", pipe=ni.gen_well_typed_pipe(rng, max_depth=rng.choice([1, 2, 3, 4, 5]), threads=rng.random() < 0.5)))
+    for _ in range(n_seq // 2):
+        # epochs ABANDONED part-way (inside a batch, inside a prebatch, with prefetched items in flight) and re-iterated without a
+        # state: "every epoch obtained by resetting or re-iterating is again complete"
+        p = ni.gen_well_typed_pipe(rng, max_depth=rng.choice([2, 3, 4, 5]), threads=rng.random() < 0.5)
+        L = len(ni.ref_sem(p, 0))
+        cases.append(dict(kind="seq_ab", pipe=p, takes=[rng.randint(1, max(1, L)) for _ in range(rng.choice([1, 2]))], restart=rng.random() < 0.7))
     for i in range(n_conc + n_proc):
         proc = i >= n_conc
         n = rng.choice([0, 1, 2, 5, 9, rng.randint(0, 14)])
@@ -96,9 +103,37 @@ def drain(node, limit=10000):
     raise RuntimeError("node does not stop")
 
 
+def ab_ops(c):
+    tail = max(len(ni.ref_sem(c["pipe"], e)) for e in range(8)) + 1
+    ops = []
+    for j in c["takes"]:
+        ops += [["iter"]] + [["next"]] * j
+    return ops + ([["iter"]] + [["next"]] * tail) * 2
+
+
 def run_impl(c):
     if c.get("sched"):
         return cc.run_impl_with(c, sched_oracle)
+    if c["kind"] == "seq_ab":
+        p = c["pipe"]
+        obs, _, _, _ = ni.run_history(p, c["restart"], ab_ops(c))
+        streams = []
+        for o in obs:
+            if o == "iter":
+                streams.append([])
+            elif isinstance(o, list) and o[0] == "item":
+                streams[-1].append(o[1])
+        refs = [ni.ref_sem(p, e) for e in range(8)]
+        fails = []
+        na = len(c["takes"])
+        for i, st in enumerate(streams):
+            if i < na:
+                if not any(r[:len(st)] == st for r in refs):
+                    fails.append(f"abandoned epoch {i} yielded {st}: not a prefix of any epoch of the reference {refs[:3]}")
+            elif st not in refs:
+                fails.append(f"epoch {i} (after {na} abandoned epoch(s) of {c['takes']} items) yielded {st}: not a complete epoch of the reference {refs[:3]}")
+        return dict(obs=obs, oracle="; ".join(fails[:2]) or None, nontrivial=len(refs[0]) >= 2 and ni.depth(p) >= 2 and any(0 < j < len(refs[0]) for j in c["takes"]),
+                    key=[p, c["takes"], c["restart"]])
     if c["kind"] == "seq":
         p = c["pipe"]
         node = ni.build(p)
@@ -152,6 +187,8 @@ def run_impl(c):
 def model_term(c, r):
     if c.get("sched"):
         return cc.model_term(c, r)
+    if c["kind"] == "seq_ab":
+        return f"loader_obs {ni.coq_pipe(c['pipe'])} {'true' if c['restart'] else 'false'} {ni.coq_ops(ab_ops(c))}"
     return f"node_epochs_obs {ni.coq_pipe(c['pipe'])} 3"
 
 
